@@ -51,6 +51,65 @@ CLAIMED["C12"] = dict(
     technique="symbolic co-execution of source and converted text under CrossHair (z3)",
 )
 
+CLAIMED["C02"] = dict(
+    category="other",
+    text="Program-quantified obligation without a data dimension: family programs, out-of-fragment shape programs and standard-library modules with unsupported statements stripped are converted by the real converter under all 8 option combinations; whenever conversion returns, the text must contain no line break, compile in eval mode and (ast.unparse path) parse back to the emitted AST after removal of the newline. z3 decides the quantified statement over the table; each table entry is decided by CPython's compiler. The line-break obligation for arbitrary string contents is the C04 kernel.",
+    design_ref="DESIGN.md section 4, C02",
+    note="The deciding step of each entry is CPython 3.12's compile(), not the solver (stated in the evidence). Bounds: the program families of vf/checks/c02.py; stdlib modules <= 25 kB (quick) / 80 kB (thorough).",
+    technique="table extracted by running the real converter + CPython compile(); z3 query over the table",
+    engine="z3 (table query) + CPython compiler",
+)
+CLAIMED["C03"] = dict(
+    category="other",
+    text="E2: decision tables over the complete (slot x kind) catalogue (95 x 56) are re-extracted on every run by driving the real expr_unparse and CPython's parser; z3 decides that no valid composition is emitted as text that fails to parse back (RT), is wrongly bare (Q2) or wrongly parenthesised (Q3), synthesises an integer stratification of kinds and slots (Q1) and decides that the parenthesisation decision is exactly node precedence > slot precedence (Q4), which lifts the depth-2 table to every depth; node shapes (2493), seeded deep trees and the trees the converter emits are decided as table queries of the same form.",
+    design_ref="DESIGN.md section 4, C03",
+    note="Oracle of every table entry: CPython 3.12's parser. Assumption: the expression grammar is stratified (corroborated by Q1 up to a listed lexical residue and by deep-tree replays). Full-field comparison ignoring ctx/kind/positions.",
+    technique="z3 over decision tables extracted from the real unparser (stratification synthesis + refinement queries)",
+    engine="z3 (tables re-extracted from /repo on every run)",
+)
+CLAIMED["C04"] = dict(
+    category="other",
+    text="E1: the real get_unescaped_str/expr_unparse with ONE symbolic character (every code point, partitioned into chunks) in each literal position (plain constant, f-string literal before/after a field, format-spec literal, constant nested in a replacement field, dict key in a field, bytes); the emitted text is decoded by a reference decoder executed symbolically; postcondition: decodes to the same value, no raw CR/LF, no raw surrogate, self-delimiting (lifts to every length). Table queries (oracle: parser) for 3200 f-string structure shapes, constant class representatives incl. inf/nan/complex and standard-library literals.",
+    design_ref="DESIGN.md section 4, C04",
+    note="Stub: builtins.ascii replaced by a validated pure-Python model. Quick tier: planes 3-14 outside the bound of the escape kernel and position kernels bounded to latin-1-or-printable (thorough: full domain). Numbers/bytes go through C-level repr: concrete representatives.",
+    technique="CrossHair (z3) on the real escaping/unparsing functions with a symbolic character + symbolic reference decoder; z3 table queries for structure",
+)
+CLAIMED["C08"] = dict(
+    category="other",
+    text="E1 selector slices over the real convert_code_string: every (host position x unsupported construct x configuration) cell of the injection space (26 statement hosts x 26 statement constructs, 33 expression hosts x 8 expression constructs), 36 illegal placements that parse but CPython refuses to compile, and legal near-misses that must be accepted. Every path is concrete after the selectors are picked; the solver contributes the exhaustiveness certificate per slice.",
+    design_ref="DESIGN.md section 4, C08",
+    note="No data dimension; oracle for illegal placements is CPython's compile(). README 'Limitations' is the list of unsupported constructs; the catalogue fails closed on unknown ast.stmt subclasses.",
+    technique="CrossHair selector slices (exhaustive enumeration certificate) over the real converter",
+)
+CLAIMED["C09"] = dict(
+    category="translation_validation",
+    text="The finite matrix (risky identifier x role x converter feature): the identifier set is re-derived on every run from what the converter emits (plus the builtins the generated code calls and a control name); each cell is a small program converted by the real converter and co-executed with the source under CrossHair with symbolic stored values. Distinctness of __ol_ temporaries is checked on every output (real RNG).",
+    design_ref="DESIGN.md section 4, C09",
+    note="Bounds: 21 identifiers x 10 roles x 16 features (3520 cells; quick: control cells + 700 seed-rotated). Known findings listed by explicit cell.",
+    technique="symbolic co-execution of source and converted text under CrossHair (z3) over the capture matrix",
+)
+CLAIMED["C10"] = dict(
+    category="model_checking",
+    text="E1 on the real Configs/Cfg/convert_code_string: the API history (create options object, set option incl. illegal values, convert with object, convert without options, reseed random) is the symbolic variable; every history of length <= 3 (quick) / 4 (thorough) over the 27/31-action alphabet is explored; a ghost model predicts the option triple, conversions run concretely and are compared (alpha-normalised) with the same call made in fresh processes.",
+    design_ref="DESIGN.md section 4, C10",
+    note="Module state is made pristine at the start of every path by re-importing oneliner. Bounds: <= 2 options objects, 2/3 programs, 3 values per option.",
+    technique="CrossHair (z3) exploration of symbolic API histories against a ghost model and a fresh-process reference table",
+)
+CLAIMED["C14"] = dict(
+    category="translation_validation",
+    text="24 import statement forms x 5 placements are converted by the real converter; source and converted text are co-executed under CrossHair over a stub import system (same stub on both sides; the source reaches it through CPython's IMPORT_NAME/IMPORT_FROM byte-code) with a symbolic environment: which modules are already imported, attribute-vs-submodule, relative-import anchor, module attribute values. Order/count of module executions, identity and scope of bound names must coincide.",
+    design_ref="DESIGN.md section 4, C14",
+    note="The stub is validated against the real import system on a vendored on-disk copy of the tree in fresh subprocesses at check start.",
+    technique="symbolic co-execution over a validated stub import system under CrossHair (z3)",
+)
+CLAIMED["C16"] = dict(
+    category="other",
+    text="E1 on the real oneliner/__main__.py source executed in-process with stubs for parse_args/open/print: free symbolic -C arguments (every string <= 4 chars; 'expr_wrapper=' + every value <= 4 chars; every name <= 3 chars + '=list') and selector slices over pools derived from the real options object (names x separators x values x {-o, stdout} x deprecated --unparser; pairs of -C options); reference: a CLI specification written without str.split; output compared with the library call.",
+    design_ref="DESIGN.md section 4, C16",
+    note="Stub fidelity validated on 24 command lines against the real CLI in subprocesses; every counterexample is replayed on the real CLI. argparse's own tokenisation is outside the claim.",
+    technique="CrossHair (z3) on the real CLI script with symbolic option arguments",
+)
+
 NOT_YET = {}
 
 NOT_APPLICABLE = {
